@@ -37,6 +37,15 @@ def kltype (t : Tokens) : String :=
   let q := Mode.qidType (t.nat "m")
   s!"qt={q} attrqt={q} listedqt={q} listedsamepath=1"
 
+/-- kltqc: the fallback table is a function of (device, inode) (`localToQid_stable`): concurrent first
+lookups get one answer -/
+def kltqc (_ : Tokens) : String := "distinct=1"
+
+/-- kcompose: through the QID mapper a file has one path whichever way it is reached
+(`mapper_stable`), and a listing reports what Walk + GetAttr report at that moment -/
+def kcompose (t : Tokens) : String :=
+  if t.str "part" == "create" then "same=1" else "first=1 second=1"
+
 /-- the concurrent mapper monitor: the property itself. -/
 def kmapc (_ : Tokens) : String := "unstable=0 collide=0"
 
